@@ -24,6 +24,7 @@ func init() {
 		Guards: func(m *mon.Merged, tier string) []string {
 			var out []string
 			need(m, &out, "decode_days_covered", 50457)
+			need(m, &out, "decodes_from_a_reused_buffer", 100000)
 			need(m, &out, "decode_times_of_day_covered", 86400)
 			need(m, &out, "encode_days_covered", 50457)
 			need(m, &out, "encode_times_of_day_covered", 86400)
@@ -44,8 +45,16 @@ const mjdLo, mjdHi = 15079, 65535
 func runC15(c *mon.Ctx) {
 	epoch := time.Date(1858, 11, 17, 0, 0, 0, 0, time.UTC)
 	bcdb := func(v int) byte { return byte(v/10)<<4 | byte(v%10) }
+	// Half of the blocks hand every value to the library in one and the same buffer, refilled between the calls (the Demuxer parses
+	// every table from a reused buffer): a result may depend on the bytes of this call only, not on what the buffer held before
+	shared := make([]byte, 5)
 	decode := func(stage string, idx int64, mjd, sec int) {
 		b := []byte{byte(mjd >> 8), byte(mjd), bcdb(sec / 3600), bcdb(sec / 60 % 60), bcdb(sec % 60)}
+		if idx%2 == 1 {
+			copy(shared, b)
+			b = shared
+			c.Count("decodes_from_a_reused_buffer")
+		}
 		want, _ := refts.DecodeDVBTime(b)
 		var got time.Time
 		var err error
@@ -54,7 +63,7 @@ func runC15(c *mon.Ctx) {
 			return
 		}
 		if err != nil || !got.Equal(want) {
-			c.Violate("C15/decode/wrong-time", stage, idx, fmt.Sprintf("bytes %x: library %v (err %v), calendar says %v", b, got.UTC(), err, want), map[string]any{"bytes": mon.Hex(b, 5)})
+			c.Violate("C15/decode/wrong-time", stage, idx, fmt.Sprintf("bytes %x: library %v (err %v), calendar says %v", b, got.UTC(), err, want), map[string]any{"bytes": mon.Hex(b, 5), "reused_buffer": idx%2 == 1})
 		}
 		if got.Location() != time.UTC && err == nil {
 			c.Violate("C15/decode/not-utc", stage, idx, fmt.Sprintf("location %v", got.Location()), nil)
@@ -170,8 +179,13 @@ func runC15(c *mon.Ctx) {
 		if !c.Mine("dur", hh) {
 			continue
 		}
+		sh2, sh3 := make([]byte, 2), make([]byte, 3)
 		for mm := 0; mm < 100; mm++ {
 			b2 := []byte{bcdb(int(hh)), bcdb(mm)}
+			if hh%2 == 1 {
+				copy(sh2, b2)
+				b2 = sh2 // one buffer refilled between the calls
+			}
 			want := refts.DecodeBCDHM(b2)
 			got, err := astits.VerifParseDVBDurationMinutes(b2)
 			if err != nil || got != want {
@@ -188,6 +202,10 @@ func runC15(c *mon.Ctx) {
 			}
 			for ss := 0; ss < 100; ss++ {
 				b3 := []byte{bcdb(int(hh)), bcdb(mm), bcdb(ss)}
+				if hh%2 == 1 {
+					copy(sh3, b3)
+					b3 = sh3
+				}
 				want := refts.DecodeBCDHMS(b3)
 				got, err := astits.VerifParseDVBDurationSeconds(b3)
 				if err != nil || got != want {
